@@ -136,6 +136,7 @@ func init() {
 		var live []vAllocRec
 		nextID := 0
 		dead := false
+		bases := make([]uintptr, 64)
 		located := func(s []byte) (string, bool) {
 			c, off, why := vAllocLocate(a, s)
 			if why != "" {
@@ -149,6 +150,7 @@ func init() {
 				a.Release()
 				a = NewAllocator(int(vu(op[1])), "verif")
 				live = nil
+				bases = make([]uintptr, 64)
 				return fmt.Sprintf("ok %d", a.Allocated())
 			case "alloc":
 				n := int(vu(op[1]))
@@ -218,6 +220,31 @@ func init() {
 			case "preempt":
 				atomic.AddUint64(&a.compIdx, vu(op[1]))
 				return "ok"
+			case "chunks":
+				// lengths of the chunk slots (trailing empty ones dropped) + have the non-empty ones moved?
+				var ls []string
+				last := -1
+				st := "stable"
+				for i, b := range a.buffers {
+					var base uintptr
+					if len(b) > 0 {
+						last = i
+						base = uintptr(unsafe.Pointer(&b[0]))
+					}
+					if i < len(bases) {
+						if bases[i] != 0 && base != 0 && bases[i] != base && st == "stable" {
+							st = fmt.Sprintf("moved%d", i)
+						}
+						bases[i] = base
+					}
+				}
+				for i := 0; i <= last; i++ {
+					ls = append(ls, fmt.Sprint(len(a.buffers[i])))
+				}
+				if len(ls) == 0 {
+					ls = []string{"-"}
+				}
+				return strings.Join(ls, ",") + " " + st
 			case "verify":
 				for i, r := range live {
 					if !vAllocIntact(r) {
